@@ -318,10 +318,14 @@ func SnippetProperty(impl SnippetImpl) Property {
 					before := fw[i].calls
 					hadErr := et[i].Error() != nil
 					var err error
+					var nw int
 					if f[3] == "s" {
-						_, err = io.WriteString(et[i], Unhex(f[4]))
+						nw, err = io.WriteString(et[i], Unhex(f[4]))
 					} else {
-						_, err = et[i].Write([]byte(Unhex(f[4])))
+						nw, err = et[i].Write([]byte(Unhex(f[4])))
+					}
+					if hadErr && nw != 0 {
+						fail("tracker-count-after-error", fmt.Sprintf("a write refused because of the earlier error claims to have written %d bytes; nothing reached the writer", nw))
 					}
 					if hadErr && fw[i].calls != before {
 						fail("tracker-reaches-writer", "the underlying writer was called after the ErrorTracker recorded an error")
